@@ -103,6 +103,40 @@ def gen_hreq(g, rng, rid, kind=None):
     return dict(req=req, kind=kind, body=body, extra=dict(extra), pre=pre, bodyerr=bodyerr)
 
 
+def class_state_snapshot():
+    """fingerprints of every class-level / module-level mutable container of the package and of
+    the shared error objects (what could carry state from one request to a later one besides the
+    per-thread request / response objects)"""
+    import inspect
+    import re
+    import sys
+    strip = lambda x: re.sub(r'0x[0-9a-f]+', '0x', repr(x))
+    snap = {}
+    for mn, mod in sorted(sys.modules.items()):
+        if not (mn == 'ombott' or mn.startswith('ombott.')) or mod is None:
+            continue
+        for name, obj in list(vars(mod).items()):
+            if name.startswith('__'):
+                continue
+            if isinstance(obj, (dict, list, set)):
+                snap[f'{mn}:{name}'] = (len(obj), strip(obj))
+            if inspect.isclass(obj) and obj.__module__ == mn:
+                for an, av in list(vars(obj).items()):
+                    if an.startswith('__') and an.endswith('__'):
+                        continue
+                    if isinstance(av, (dict, list, set)):
+                        snap[f'{mn}:{obj.__name__}.{an}'] = (len(av), strip(av))
+    om = sys.modules['ombott.ombott']
+    for cls, e in om.DefaultConfig.errors_map.items():
+        depth, tb = 0, e.__traceback__
+        while tb is not None:
+            depth, tb = depth + 1, tb.tb_next
+        snap[f'errors_map[{cls.__name__}]'] = (
+            e._status_code, e._status_line, strip(e._headers), e._cookies.output() if e._cookies else None,
+            strip(e.body), strip(e.exception), strip(e.traceback), sorted(getattr(e, '__dict__', {})), depth)
+    return snap
+
+
 class Server:
     """one real application that serves a history (all routes of the zoo installed lazily)"""
 
@@ -370,6 +404,23 @@ class C09(Check):
         b = len(gc.get_objects())
         return a, b
 
+    def _class_state(self, kind, n, rng):
+        """serve one history of every request kind (warm-up), fingerprint the class-level state, serve
+        another history of the same kinds with other urls / bodies / values, fingerprint again"""
+        g = zoo.Gen(rng)
+        srv = Server(dict(before=[], after=[], errh=[]))
+        rid = [0]
+
+        def one_pass():
+            for k in KINDS * max(1, n):
+                rid[0] += 1
+                srv.serve(gen_hreq(g, rng, rid[0], k))
+        one_pass()
+        a = class_state_snapshot()
+        one_pass()
+        b = class_state_snapshot()
+        return [(k, str(a.get(k))[:200], str(b.get(k))[:200]) for k in sorted(set(a) | set(b)) if a.get(k) != b.get(k)]
+
     def search(self, rng, n, seeds):
         try:
             return self._search(rng, n, seeds)
@@ -389,6 +440,8 @@ class C09(Check):
         for _ in range(n):
             cases.append((fixed_app(g, rng), self.gen_history(g, rng)))
         for spec, hist in cases:
+            if len({f.key for f in findings}) >= 6 or len(findings) >= 40:
+                break           # enough replays; the run is failing anyway
             evals += 1
             try:
                 bad = zoo.watchdog(lambda: self._oracle(spec, hist), 60)
@@ -400,10 +453,15 @@ class C09(Check):
         sizes = [10, 100, 1000] if n < 2000 else [10, 100, 1000, 5000]
         fail_kinds = ['chunked-garbage', 'chunked-truncated', 'oversize', 'oversize-chunked', 'bad-json',
                       'request-error', 'crash', 'badpath', 'nf', 'na', 'cookie-then-body-error']
+        evals += 1
+        for name, before, after in self.reference().measure('class-state', '-', 2, rng.randrange(1 << 30)):
+            findings.append(Finding(f'C09:class-state:{name}',
+                                    f'serving further requests changed {name}: {before} -> {after}',
+                                    dict(kind='class-state', n=2)))
         for kind in fail_kinds + ['ok-cookie', 'raise-resp', 'good-body']:
             evals += 1
             N = 150 if n < 2000 else 1000
-            a, b = self._growth(kind, N, rng)
+            a, b = self.reference().measure('growth', kind, N, rng.randrange(1 << 30))
             if b - a > max(40, N // 10):
                 findings.append(Finding(
                     f'C09:growth:{kind}',
@@ -412,7 +470,7 @@ class C09(Check):
         for kind in fail_kinds:
             for N in sizes:
                 evals += 1
-                envs, inputs = self._retention(kind, N, rng)
+                envs, inputs = self.reference().measure('retention', kind, N, rng.randrange(1 << 30))
                 if envs > self.K_BOUND or inputs > self.K_BOUND:
                     findings.append(Finding(
                         f'C09:retention:{kind}',
@@ -428,6 +486,9 @@ class C09(Check):
 
     def replay(self, data):
         i = data['input']
+        if i.get('kind') == 'class-state':
+            import random
+            return dict(input=i, changed=self._class_state('-', i['n'], random.Random(0)))
         if i.get('kind') == 'growth':
             import random
             a, b = self._growth(i['fail_kind'], i['n'], random.Random(0))
